@@ -200,11 +200,18 @@ def items():
         return rules(
             extra_expr=[("adjacency_list[$i]", "(pyGet adjL {i})"),
                         ("$d.get($k, None) != $y", "(lookup {d} {k} != some {y})"),
+                        ("$d.get($k) != $y", "(lookup {d} {k} != some {y})"),
                         ("$d.get($k, None)", "(lookup {d} {k})"),
+                        ("$d.get($k)", "(lookup {d} {k})"),
                         ("dfs($x, entered=set(), exited=set(), tree_edges={}, back_edges={})[1]",
                          "(!(List.isEmpty (genDfs adjL directed (2 * adjL.length + 2) {x} ([], [], [], [])).2.2))"),
                         ("dfs($x, set(), set(), {}, {})[1]",
                          "(!(List.isEmpty (genDfs adjL directed (2 * adjL.length + 2) {x} ([], [], [], [])).2.2))"),
+                        # the call itself: its value is the pair (tree_edges, back_edges) of the fresh search from x
+                        ("dfs($x, entered=set(), exited=set(), tree_edges={}, back_edges={})",
+                         "(genDfs adjL directed (2 * adjL.length + 2) {x} ([], [], [], [])).2"),
+                        ("dfs($x, set(), set(), {}, {})",
+                         "(genDfs adjL directed (2 * adjL.length + 2) {x} ([], [], [], [])).2"),
                         ("len(adjacency_list)", "(List.length adjL)")],
             stmt=[("$d.setdefault($k, set()).add($v)", "d", "(({k}, {v}) :: {d})"),
                   ("$s.add($x)", "s", "({x} :: {s})"),
